@@ -2,6 +2,7 @@ package vm
 
 import (
 	"fmt"
+	"math/big"
 
 	"github.com/Oneledger/protocol/data/balance"
 	"github.com/Oneledger/protocol/data/keys"
@@ -102,5 +103,10 @@ func (s *CommitStateDB) clearJournalAndRefund() {
 func (s *CommitStateDB) deleteStateObject(so *stateObject) {
 	so.deleted = true
 	s.logger.Detailf("VM: delete state object for address '%s' with nonce: '%d' and balance: '%d' \n", so.Address(), so.account.Sequence, so.account.Balance())
+	// the balance is kept in the balance store, not in the account record, so it has to be cleared there
+	so.account.SetBalance(new(big.Int))
+	if err := s.accountKeeper.SetAccount(*so.account); err != nil {
+		s.setError(err)
+	}
 	s.accountKeeper.RemoveAccount(*so.account)
 }
